@@ -473,17 +473,25 @@ def _subscript_guard(ctx, fi, node, idx):
             need = idx + 1 if idx >= 0 else -idx
             if need >= 2:
                 # needs a len() guard dominating the use
+                p_ = node
+                while p_ is not None and p_ is not fi.node:
+                    par = getattr(p_, "_parent", None)
+                    if isinstance(par, ast.IfExp) and (
+                            (p_ is par.body and _len_at_least(
+                                par.test, base.id, need, True))
+                            or (p_ is par.orelse and _len_at_least(
+                                par.test, base.id, need, False))):
+                        return True, "guarded by the conditional " \
+                            "expression's test %s" % src(par.test)
+                    p_ = par
                 g = cfgmod.CFG(fi.node)
                 for cn in g.node_containing(node):
                     conds = g.path_conditions(cn)
                     for t, pol in conds:
                         txt = src(t.ast)
-                        if pol and txt.startswith("len(%s) ==" % base.id):
-                            try:
-                                if int(txt.split("==")[1]) >= need:
-                                    return True, ("dominated by %s" % txt)
-                            except ValueError:
-                                pass
+                        if _len_at_least(t.ast, base.id, need, pol):
+                            return True, ("dominated by %s%s"
+                                          % ("" if pol else "not ", txt))
                 return False, "no dominating len() test"
             # first field of split(None, ...) of a string that starts with a
             # non-space character: the string is the 'value' group of the
@@ -517,6 +525,29 @@ def _subscript_guard(ctx, fi, node, idx):
                 and val.func.attr in ("group", "groups"):
             return True, "match groups"
     return False, "origin of %s not recognised" % base.id
+
+
+def _len_at_least(test, name, need, polarity):
+    """Does `test` having truth value `polarity` imply len(name) >= need?"""
+    if isinstance(test, ast.UnaryOp) and isinstance(test.op, ast.Not):
+        return _len_at_least(test.operand, name, need, not polarity)
+    if not (isinstance(test, ast.Compare) and len(test.ops) == 1):
+        return False
+    l, op, r = test.left, test.ops[0], test.comparators[0]
+    flip = {ast.Lt: ast.Gt, ast.Gt: ast.Lt, ast.LtE: ast.GtE,
+            ast.GtE: ast.LtE, ast.Eq: ast.Eq, ast.NotEq: ast.NotEq}
+    if isinstance(l, ast.Constant) and type(op) in flip:
+        l, r, op = r, l, flip[type(op)]()
+    if not (isinstance(l, ast.Call) and src(l) == "len(%s)" % name
+            and isinstance(r, ast.Constant) and isinstance(r.value, int)):
+        return False
+    c = r.value
+    if polarity:
+        return (isinstance(op, ast.Eq) and c >= need) \
+            or (isinstance(op, ast.GtE) and c >= need) \
+            or (isinstance(op, ast.Gt) and c + 1 >= need)
+    return (isinstance(op, ast.Lt) and c >= need) \
+        or (isinstance(op, ast.LtE) and c + 1 >= need)
 
 
 def _is_error_call(call):
